@@ -116,7 +116,8 @@ func zzMakeCaller(class int, toklen int) *zzCaller {
 	if class == zzNoDelegation {
 		return c
 	}
-	c.deleg = &transport.StreamDelegate{Conn: zzConn{}, Identity: &protocol.Node{Id: 99, Address: "claimed"}, Kind: protocol.Stream_RPC}
+	// The identity the peer merely claims is that of a registered client (see seedDecoy): it must count for nothing.
+	c.deleg = &transport.StreamDelegate{Conn: zzConn{}, Identity: &protocol.Node{Id: 7, Address: zzDecoyToken, Rendezvous: true}, Kind: protocol.Stream_RPC}
 	var cn string
 	switch class {
 	case zzNoCert:
@@ -175,6 +176,7 @@ const (
 
 func zzNewWorld() *zzWorld {
 	w := &zzWorld{kv: &zzKV{}, tp: &zzTransport{id: &protocol.Node{Id: 5, Address: "tunnel-self"}}}
+	w.seedDecoy()
 	w.srv = &Server{Config: Config{
 		Logger:          zap.NewNop(),
 		ParentContext:   context.Background(),
@@ -185,6 +187,14 @@ func zzNewWorld() *zzWorld {
 		Acme:            "acme.test",
 	}}
 	return w
+}
+
+// zzDecoyToken is the token of a client that is always registered; every delegation claims (without proof) to be it.
+const zzDecoyToken = "decoy-registered-token"
+
+func (w *zzWorld) seedDecoy() {
+	val, _ := (&protocol.Node{Id: 7, Address: zzDecoyToken, Rendezvous: true}).MarshalVT()
+	w.kv.seed(tun.ClientTokenKey(&protocol.ClientToken{Token: []byte(zzDecoyToken)}), val)
 }
 
 // seedRegistrations puts up to n registration records for arbitrary tokens into the DHT.
